@@ -232,7 +232,12 @@ pub fn run_c15(ctx: &mut Ctx, from: u64, to: u64) {
     for k in from..to {
         ctx.begin_case(k);
         let mut rng = Rng::new(case_seed(ctx.seed, "C15", k));
-        let rs = c15_sentence(&mut rng);
+        let mut rs = c15_sentence(&mut rng);
+        if ctx.tiny && rs.chars.len() > 8 {
+            rs.chars.truncate(8);
+            rs.labels.truncate(7);
+            rs.tags.truncate(8);
+        }
         let s: String = rs.chars.iter().collect();
         let multi_cluster = s.graphemes(true).any(|g| g.chars().count() > 1);
         ctx.flag("sentences_with_multi_char_grapheme_cluster", multi_cluster);
